@@ -67,11 +67,13 @@ claim('C05', 'proof',
       'trusted: npvc encoder; z3; user preprocessors are functions of their argument returning arrays of rank <= 3; ArrayIndexer indexing is numpy fancy indexing (assumed)',
       'symbolic execution of the validators with an uninterpreted preprocessor; ' + BOUNDED, ['a user preprocessor is a function of its argument (papply)'])
 claim('C07', 'other',
-      'proved on the real constraints.py: shapes, at-most-n_constraints, same_length, chunk vector shape, triplet shape, call well-formedness, all randomness drawn from the given random_state, and -- through the ghost '
-      '"value frame" of index arrays -- that every returned index refers to the CALLER\'s array (this is the clause F3 violated). Pair soundness (same/different known label, distinct endpoints, no repeats), chunk '
-      'disjointness/size and the k-NN characterisation are decided by the bounded-exhaustive stand-in (all label vectors of length <= 6/7 over {-1,0,1,2}).',
-      'trusted: npvc encoder; z3; libspec of np.where / np.unique / randint / choice / NearestNeighbors; set-valued invariants of _pairs and chunks are NOT proved (bounded only)',
-      'shape + index-frame symbolic execution; ' + BOUNDED, ['rejection sampling finds at least one pair when one exists (ghost hypothesis of the property)'])
+      'proved on the real constraints.py: Constraints._pairs at the VALUE level -- every returned pair joins two distinct points whose labels are known, equal for positive pairs and different for negative pairs '
+      '(element invariant of the set `ab`: an obligation for every element the body adds, carried through np.array(list(ab)), .T and known_label_idx[...] by the np.where / fancy-indexing axioms, for every label vector and every n_constraints); '
+      'shapes, at-most-n_constraints, same_length, chunk vector shape, triplet shape, call well-formedness, all randomness drawn from the given random_state, and -- through the ghost "value frame" of index arrays -- '
+      'that every returned index refers to the CALLER\'s array (the clause F3 violated). "No repeated ordered pair", chunk disjointness / size and the k-NN characterisation are decided by the bounded-exhaustive stand-in '
+      '(all label vectors of length <= 6/7 over {-1,0,1,2}).',
+      'trusted: npvc encoder; z3; libspec of np.where (sorted true positions) / fancy indexing / randint / choice (returns an entry of its argument) / np.unique / NearestNeighbors; set-valued invariants of chunks are NOT proved (bounded only)',
+      'list element invariant + index-frame symbolic execution; ' + BOUNDED, ['rejection sampling finds at least one pair when one exists (ghost hypothesis of the property)'])
 claim('C08', 'proof',
       'call-structure refinement proved on the six real supervised fit bodies with a ghost call log: the base _fit receives exactly wrap_pairs(X\', Constraints(y\').positive_negative_pairs(n_c, random_state=self.random_state)) '
       '(ITML/MMC/SDML; n_c = n_constraints or 20*n_classes^2), X\'[column_stack(...same_length=True...)] with weights=self.weights (LSML), chunks(n_chunks, chunk_size, random_state) (RCA), X\'[generate_knntriplets(X\', k_genuine, k_impostor)] (SCML); '
